@@ -30,6 +30,10 @@ Proof. unfold lbind. destruct (snd x); reflexivity. Qed.
 Lemma lbind_ext {A B} (x : lres A) (f g : A -> lres B) : (forall a, f a = g a) -> lbind x f = lbind x g.
 Proof. intro H. unfold lbind. destruct (snd x); try reflexivity. rewrite H. reflexivity. Qed.
 
+Lemma lbind_ext_ok0 {A B} (x : lres A) (f g : A -> lres B) :
+  (forall a, snd x = O2ok a -> f a = g a) -> lbind x f = lbind x g.
+Proof. intro H. unfold lbind. destruct (snd x) as [a|e|] eqn:E; try reflexivity. rewrite (H a eq_refl). reflexivity. Qed.
+
 Lemma lbind_ok_inv {A B} (x : lres A) (f : A -> lres B) b :
   snd (lbind x f) = O2ok b -> exists a, snd x = O2ok a /\ snd (f a) = O2ok b.
 Proof. rewrite lbind_eq. destruct (snd x) as [a|e|]; cbn [snd]; intro H; try discriminate. exists a. split; [reflexivity | exact H]. Qed.
@@ -79,94 +83,110 @@ Lemma cv5_num_arith p1 p2 p3 p4 :
   N.shiftl (N.shiftl (N.shiftl p1 8 + p2) 8 + p3) 8 + p4 = ((p1 * 256 + p2) * 256 + p3) * 256 + p4.
 Proof. rewrite !shl_mul. change (2 ^ 8) with 256. reflexivity. Qed.
 
-Lemma cv_decode_panic_iff v : cv_decode v = Panic <-> cv5_overflows v = true.
+Lemma cv_decode_f_cls form pf first r :
+  cv_decode_f form pf (first :: r) =
+  match cls first with
+  | 1 => Ok (first - cv_pref_1, r)
+  | 2 => match r with p1 :: r' => Ok (N.shiftl first 8 + p1 + cv_thr_1 - N.shiftl cv_pref_2 8, r') | _ => Err end
+  | 3 => match r with p1 :: p2 :: r' =>
+           Ok (N.shiftl first 16 + N.shiftl p1 8 + p2 + cv_thr_2 - N.shiftl cv_pref_3 16, r') | _ => Err end
+  | 4 => match r with p1 :: p2 :: p3 :: r' =>
+           Ok (N.shiftl first 24 + N.shiftl p1 16 + N.shiftl p2 8 + p3 + cv_thr_3 - N.shiftl cv_pref_4 24, r') | _ => Err end
+  | _ => match r with p1 :: p2 :: p3 :: p4 :: r' =>
+           match add_u32 (N.shiftl (N.shiftl (N.shiftl p1 8 + p2) 8 + p3) 8 + p4) cv_thr_4 with
+           | Some v => Ok (v, r')
+           | None => match form, pf with
+                     | 0, Dev => Panic
+                     | 0, Release | 1, _ => Ok (wrap32 (N.shiftl (N.shiftl (N.shiftl p1 8 + p2) 8 + p3) 8 + p4 + cv_thr_4), r')
+                     | _, _ => Err
+                     end
+           end
+         | _ => Err end
+  end.
 Proof.
-  destruct v as [|f r]; [cbn; split; discriminate|].
-  rewrite cv_decode_cls, cls_arith_mod. unfold cv5_overflows, cls_arith.
+  unfold cv_decode_f, cls.
+  destruct (N.land first cv_mask_1 =? cv_pref_1); [reflexivity|].
+  destruct (N.land first cv_mask_2 =? cv_pref_2); [reflexivity|].
+  destruct (N.land first cv_mask_3 =? cv_pref_3); [reflexivity|].
+  destruct (N.land first cv_mask_4 =? cv_pref_4); reflexivity.
+Qed.
+
+Lemma cv5_overflows_false_lt f r : f mod 256 < 240 -> cv5_overflows (f :: r) = false.
+Proof.
+  intro H. destruct r as [|p1 [|p2 [|p3 [|p4 r']]]]; cbn [cv5_overflows]; try reflexivity.
+  destruct (240 <=? f mod 256) eqn:E; [lia | reflexivity].
+Qed.
+
+(* the whole behaviour of cv_decode_f: outside cv5_overflows the form and the profile are irrelevant and there is
+   no panic; inside, the form and the profile decide *)
+Lemma cv_decode_f_spec form pf v :
+  (cv5_overflows v = false /\ cv_decode_f form pf v = cv_decode_f 2 Dev v /\ cv_decode_f form pf v <> Panic) \/
+  (cv5_overflows v = true /\ exists f p1 p2 p3 p4 r, v = f :: p1 :: p2 :: p3 :: p4 :: r /\
+     cv_decode_f form pf v =
+     match form, pf with
+     | 0, Dev => Panic
+     | 0, Release | 1, _ => Ok (wrap32 (((p1 * 256 + p2) * 256 + p3) * 256 + p4 + cv_thr_4), r)
+     | _, _ => Err
+     end).
+Proof.
+  destruct v as [|f r]; [left; repeat split; discriminate|].
+  rewrite !cv_decode_f_cls, cls_arith_mod. unfold cls_arith.
   destruct (f mod 256 <? 128) eqn:E1.
-  { cbv beta iota. destruct r as [|p1 [|p2 [|p3 [|p4 r']]]]; split; try discriminate;
-      intro H; apply andb_true_iff in H; destruct H as [H _]; lia. }
+  { left. split; [apply cv5_overflows_false_lt; lia|]. split; [reflexivity|]. cbv beta iota. discriminate. }
   destruct (f mod 256 <? 192) eqn:E2.
-  { cbv beta iota. destruct r as [|p1 [|p2 [|p3 [|p4 r']]]]; split; try discriminate;
-      intro H; apply andb_true_iff in H; destruct H as [H _]; lia. }
+  { left. split; [apply cv5_overflows_false_lt; lia|]. split; [reflexivity|]. cbv beta iota. destruct r; discriminate. }
   destruct (f mod 256 <? 224) eqn:E3.
-  { cbv beta iota. destruct r as [|p1 [|p2 [|p3 [|p4 r']]]]; split; try discriminate;
-      intro H; apply andb_true_iff in H; destruct H as [H _]; lia. }
+  { left. split; [apply cv5_overflows_false_lt; lia|]. split; [reflexivity|]. cbv beta iota. destruct r as [|p1 [|p2 r']]; discriminate. }
   destruct (f mod 256 <? 240) eqn:E4.
-  { cbv beta iota. destruct r as [|p1 [|p2 [|p3 [|p4 r']]]]; split; try discriminate;
-      intro H; apply andb_true_iff in H; destruct H as [H _]; lia. }
-  cbv beta iota. destruct r as [|p1 [|p2 [|p3 [|p4 r']]]]; try (split; discriminate).
-  rewrite cv5_num_arith. unfold add_u32.
+  { left. split; [apply cv5_overflows_false_lt; lia|]. split; [reflexivity|]. cbv beta iota.
+    destruct r as [|p1 [|p2 [|p3 r']]]; discriminate. }
+  cbv beta iota. destruct r as [|p1 [|p2 [|p3 [|p4 r']]]]; try (left; repeat split; discriminate).
+  rewrite !cv5_num_arith. unfold add_u32.
   destruct (((p1 * 256 + p2) * 256 + p3) * 256 + p4 + cv_thr_4 <? two32) eqn:E5.
-  - split; [discriminate|]. intro H. apply andb_true_iff in H. destruct H as [_ H]. lia.
-  - split; [|reflexivity]. intros _. apply andb_true_iff. split; lia.
+  - left. split; [|split; [reflexivity | discriminate]]. cbn [cv5_overflows].
+    destruct (two32 <=? ((p1 * 256 + p2) * 256 + p3) * 256 + p4 + cv_thr_4) eqn:E6; [lia|]. apply andb_false_r.
+  - right. split.
+    + cbn [cv5_overflows]. apply andb_true_iff. split; lia.
+    + exists f, p1, p2, p3, p4, r'. split; reflexivity.
 Qed.
 
-Lemma cv5_overflows_num v : cv5_overflows v = true -> exists x, cv5_num v = Some x.
+Lemma cv_decode_f_panic_iff form pf v :
+  cv_decode_f form pf v = Panic <-> form = 0 /\ pf = Dev /\ cv5_overflows v = true.
 Proof.
-  destruct v as [|f [|p1 [|p2 [|p3 [|p4 r]]]]]; cbn [cv5_overflows]; try discriminate. intros _. eexists. reflexivity.
-Qed.
-
-(* what cv_decode_f does where cv_decode panics, for every form of the addition *)
-Lemma cv_decode_f_cases form pf v : cv_decode v = Panic ->
-  (form = 0 /\ pf = Dev /\ cv_decode_f form pf v = Panic) \/
-  (exists num r, cv5_num v = Some (num, r) /\ cv_decode_f form pf v = Ok (wrap32 (num + cv_thr_4), r) /\
-                 (form = 0 /\ pf = Release \/ form = 1)) \/
-  (form <> 0 /\ form <> 1 /\ cv_decode_f form pf v = Err).
-Proof.
-  intro E. unfold cv_decode_f. rewrite E.
-  destruct (cv5_overflows_num v (proj1 (cv_decode_panic_iff v) E)) as [[num r] Nm]. rewrite Nm.
-  destruct form as [|[p|p|]]; destruct pf.
-  - left. repeat split.
-  - right. left. exists num, r. repeat split. left. split; reflexivity.
-  - right. right. repeat split; discriminate.
-  - right. right. repeat split; discriminate.
-  - right. right. repeat split; discriminate.
-  - right. right. repeat split; discriminate.
-  - right. left. exists num, r. repeat split. right. reflexivity.
-  - right. left. exists num, r. repeat split. right. reflexivity.
-Qed.
-
-Lemma cv_decode_f_same form pf v : cv5_overflows v = false -> cv_decode_f form pf v = cv_decode v.
-Proof.
-  intro H. unfold cv_decode_f. destruct (cv_decode v) eqn:E; try reflexivity.
-  apply cv_decode_panic_iff in E. congruence.
+  destruct (cv_decode_f_spec form pf v) as [(H1 & _ & H3) | (H1 & f & p1 & p2 & p3 & p4 & r & _ & H2)].
+  - split; [contradiction | intros (_ & _ & H); congruence].
+  - rewrite H2. destruct form as [|[p|p|]]; destruct pf; split; try discriminate;
+      try (intros (X & Y & _); discriminate); intros _; repeat split; assumption.
 Qed.
 
 Lemma cv_decode_f_release_safe form v : cv_decode_f form Release v <> Panic.
-Proof.
-  destruct (cv_decode v) eqn:E; try (unfold cv_decode_f; rewrite E; discriminate).
-  destruct (cv_decode_f_cases form Release v E) as [(_ & X & _) | [(num & r & _ & X & _) | (_ & _ & X)]];
-    [discriminate | rewrite X; discriminate | rewrite X; discriminate].
-Qed.
+Proof. intro H. apply cv_decode_f_panic_iff in H. destruct H as (_ & H & _). discriminate. Qed.
 
 (* a repaired addition (wrapping_add or checked_add) cannot panic in either profile *)
 Lemma cv_decode_f_repaired_safe form pf v : form <> 0 -> cv_decode_f form pf v <> Panic.
+Proof. intros Hf H. apply cv_decode_f_panic_iff in H. destruct H as (H & _). contradiction. Qed.
+
+Lemma cv_decode_f_same form pf form' pf' v : cv5_overflows v = false ->
+  cv_decode_f form pf v = cv_decode_f form' pf' v.
 Proof.
-  intro Hf. destruct (cv_decode v) eqn:E; try (unfold cv_decode_f; rewrite E; discriminate).
-  destruct (cv_decode_f_cases form pf v E) as [(X & _) | [(num & r & _ & X & _) | (_ & _ & X)]];
-    [contradiction | rewrite X; discriminate | rewrite X; discriminate].
+  intro H.
+  destruct (cv_decode_f_spec form pf v) as [(_ & A & _) | (X & _)]; [|congruence].
+  destruct (cv_decode_f_spec form' pf' v) as [(_ & B & _) | (X & _)]; [|congruence].
+  rewrite A, B. reflexivity.
 Qed.
 
-Lemma cv_decode_f_dev0 v : cv_decode_f 0 Dev v = cv_decode v.
-Proof. unfold cv_decode_f. destruct (cv_decode v); reflexivity. Qed.
-
-Lemma cv_decode_p_dev v : cv_decode_p Dev v = cv_decode v.
-Proof. exact (cv_decode_f_dev0 v). Qed.
-
-Lemma cv_decode_p_same pf v : cv5_overflows v = false -> cv_decode_p pf v = cv_decode v.
-Proof. apply cv_decode_f_same. Qed.
-
-Lemma cv_decode_p_release_safe v : cv_decode_p Release v <> Panic.
-Proof. apply cv_decode_f_release_safe. Qed.
-
-Lemma cv_decode_p_dev_panic v : cv_decode_p Dev v = Panic <-> cv5_overflows v = true.
-Proof. rewrite cv_decode_p_dev. apply cv_decode_panic_iff. Qed.
-
-(* every form consumes at least one byte *)
-Lemma cv_decode_consumes v n r : cv_decode v = Ok (n, r) -> lenN r < lenN v.
+(* with a repaired addition nothing depends on the profile *)
+Lemma cv_decode_f_profile form v : form <> 0 -> cv_decode_f form Dev v = cv_decode_f form Release v.
 Proof.
-  destruct v as [|f t]; [cbn; discriminate|]. rewrite cv_decode_cls. unfold cls.
+  intro Hf. destruct (cv5_overflows v) eqn:E; [|apply cv_decode_f_same; exact E].
+  destruct (cv_decode_f_spec form Dev v) as [(X & _) | (_ & f & p1 & p2 & p3 & p4 & r & Ev & A)]; [congruence|].
+  destruct (cv_decode_f_spec form Release v) as [(X & _) | (_ & f' & q1 & q2 & q3 & q4 & r' & Ev' & B)]; [congruence|].
+  rewrite A, B. rewrite Ev in Ev'. inversion Ev'; subst. destruct form as [|[p|p|]]; try reflexivity. contradiction.
+Qed.
+
+Lemma cv_decode_f_consumes form pf v n r : cv_decode_f form pf v = Ok (n, r) -> lenN r < lenN v.
+Proof.
+  destruct v as [|f t]; [cbn; discriminate|]. rewrite cv_decode_f_cls. unfold cls.
   destruct (N.land f cv_mask_1 =? cv_pref_1).
   { intro H. inversion H; subst. rewrite Varint_proofs.lenN_cons. lia. }
   destruct (N.land f cv_mask_2 =? cv_pref_2).
@@ -176,22 +196,32 @@ Proof.
   destruct (N.land f cv_mask_4 =? cv_pref_4).
   { destruct t as [|p1 [|p2 [|p3 t]]]; try discriminate. intro H. inversion H; subst. rewrite !Varint_proofs.lenN_cons. lia. }
   destruct t as [|p1 [|p2 [|p3 [|p4 t]]]]; try discriminate.
-  destruct (add_u32 _ _); [|discriminate]. intro H. inversion H; subst. rewrite !Varint_proofs.lenN_cons. lia.
-Qed.
-
-Lemma cv_decode_f_consumes form pf v n r : cv_decode_f form pf v = Ok (n, r) -> lenN r < lenN v.
-Proof.
-  destruct (cv_decode v) as [[n' r']| |] eqn:E.
-  - unfold cv_decode_f. rewrite E. intro H. inversion H; subst. eapply cv_decode_consumes; eassumption.
-  - unfold cv_decode_f. rewrite E. discriminate.
-  - destruct (cv_decode_f_cases form pf v E) as [(_ & _ & X) | [(num & r0 & Nm & X & _) | (_ & _ & X)]]; rewrite X; try discriminate.
-    intro H. inversion H; subst.
-    destruct v as [|f [|p1 [|p2 [|p3 [|p4 t]]]]]; cbn [cv5_num] in Nm; try discriminate.
-    inversion Nm; subst. rewrite !Varint_proofs.lenN_cons. lia.
+  destruct (add_u32 _ _).
+  - intro H. inversion H; subst. rewrite !Varint_proofs.lenN_cons. lia.
+  - destruct form as [|[p|p|]]; destruct pf; try discriminate; intro H; inversion H; subst; rewrite !Varint_proofs.lenN_cons; lia.
 Qed.
 
 Lemma cv_decode_p_consumes pf v n r : cv_decode_p pf v = Ok (n, r) -> lenN r < lenN v.
 Proof. apply cv_decode_f_consumes. Qed.
+
+(* the C03 model of the same function (CVarint.cv_decode) agrees wherever the count is in range *)
+Lemma cv_decode_f_c03 form pf v : cv5_overflows v = false -> cv_decode_f form pf v = cv_decode v.
+Proof.
+  intro H. destruct v as [|f r]; [reflexivity|]. unfold cv_decode_f, cv_decode.
+  destruct (N.land f cv_mask_1 =? cv_pref_1) eqn:E1; [reflexivity|].
+  destruct (N.land f cv_mask_2 =? cv_pref_2) eqn:E2; [reflexivity|].
+  destruct (N.land f cv_mask_3 =? cv_pref_3) eqn:E3; [reflexivity|].
+  destruct (N.land f cv_mask_4 =? cv_pref_4) eqn:E4; [reflexivity|].
+  destruct r as [|p1 [|p2 [|p3 [|p4 r']]]]; try reflexivity. cbv zeta.
+  destruct (add_u32 (N.shiftl (N.shiftl (N.shiftl p1 8 + p2) 8 + p3) 8 + p4) cv_thr_4) eqn:E5; [reflexivity|].
+  exfalso. assert (C : cls f = 5) by (unfold cls; rewrite E1, E2, E3, E4; reflexivity).
+  rewrite cls_arith_mod in C. unfold cls_arith in C.
+  rewrite cv5_num_arith in E5. unfold add_u32 in E5. cbn [cv5_overflows] in H.
+  destruct (((p1 * 256 + p2) * 256 + p3) * 256 + p4 + cv_thr_4 <? two32) eqn:E6; [discriminate|].
+  destruct (f mod 256 <? 128); [discriminate|]. destruct (f mod 256 <? 192); [discriminate|].
+  destruct (f mod 256 <? 224); [discriminate|]. destruct (f mod 256 <? 240) eqn:E7; [discriminate|].
+  apply andb_false_iff in H. destruct H as [H | H]; lia.
+Qed.
 
 (* ------------------------------------------------------------------ the string loop *)
 Lemma dec_cbytes_no_panic ptr : dec_cbytes ptr <> Panic.
@@ -265,51 +295,32 @@ Proof.
   eapply Forall_impl; [|apply dec_names_alloc]. intros a. destruct a; cbn [names_alloc_ok stream_alloc_ok]; lia.
 Qed.
 
-Lemma deser_f_safe_from form pf v : cv_decode_f form pf v <> Panic -> snd (deser_sample_names_f form pf v) <> O2panic.
+Lemma deser_f_panic_iff form pf v :
+  snd (deser_sample_names_f form pf v) = O2panic <-> form = 0 /\ pf = Dev /\ cv5_overflows v = true.
 Proof.
-  intro H. unfold deser_sample_names_f. destruct (cv_decode_f form pf v) as [[n r]| |] eqn:E.
-  - apply dec_names_safe.
-  - cbn. discriminate.
-  - contradiction.
-Qed.
-
-Lemma deser_f_release_safe form v : snd (deser_sample_names_f form Release v) <> O2panic.
-Proof. apply deser_f_safe_from, cv_decode_f_release_safe. Qed.
-
-Lemma deser_f_repaired_safe form pf v : form <> 0 -> snd (deser_sample_names_f form pf v) <> O2panic.
-Proof. intro H. apply deser_f_safe_from, cv_decode_f_repaired_safe, H. Qed.
-
-Lemma deser_f_domain_safe form pf v : cv5_overflows v = false -> snd (deser_sample_names_f form pf v) <> O2panic.
-Proof.
-  intro H. apply deser_f_safe_from. rewrite cv_decode_f_same by assumption. intro E. apply cv_decode_panic_iff in E. congruence.
-Qed.
-
-Lemma deser_f_same form pf form' pf' v : cv5_overflows v = false ->
-  deser_sample_names_f form pf v = deser_sample_names_f form' pf' v.
-Proof. intro H. unfold deser_sample_names_f. rewrite !cv_decode_f_same by assumption. reflexivity. Qed.
-
-Lemma deser_names_alloc pf v : Forall (stream_alloc_ok (lenN v)) (fst (deser_sample_names_p pf v)).
-Proof. apply deser_f_alloc. Qed.
-
-Lemma deser_names_release_safe v : snd (deser_sample_names_p Release v) <> O2panic.
-Proof. apply deser_f_release_safe. Qed.
-
-Lemma deser_names_dev_panic_iff v : snd (deser_sample_names_p Dev v) = O2panic <-> cv5_overflows v = true.
-Proof.
-  unfold deser_sample_names_p, deser_sample_names_f. change (cv_decode_f CV5_ADD_FORM Dev v) with (cv_decode_p Dev v).
-  rewrite <- cv_decode_p_dev_panic.
-  destruct (cv_decode_p Dev v) as [[n r]| |]; cbn [snd]; split; try discriminate; try reflexivity.
+  rewrite <- cv_decode_f_panic_iff. unfold deser_sample_names_f.
+  destruct (cv_decode_f form pf v) as [[n r]| |]; cbn [snd]; split; try discriminate; try reflexivity.
   intro H. exfalso. exact (dec_names_safe _ _ _ H).
 Qed.
 
-Lemma deser_names_same pf v : cv5_overflows v = false -> deser_sample_names_p pf v = deser_sample_names_p Dev v.
-Proof. apply deser_f_same. Qed.
+Lemma deser_f_release_safe form v : snd (deser_sample_names_f form Release v) <> O2panic.
+Proof. intro H. apply deser_f_panic_iff in H. destruct H as (_ & H & _). discriminate. Qed.
+
+Lemma deser_f_repaired_safe form pf v : form <> 0 -> snd (deser_sample_names_f form pf v) <> O2panic.
+Proof. intros Hf H. apply deser_f_panic_iff in H. destruct H as (H & _). contradiction. Qed.
+
+Lemma deser_f_same form pf form' pf' v : cv5_overflows v = false ->
+  deser_sample_names_f form pf v = deser_sample_names_f form' pf' v.
+Proof. intro H. unfold deser_sample_names_f. rewrite (cv_decode_f_same form pf form' pf') by assumption. reflexivity. Qed.
+
+Lemma deser_f_profile form v : form <> 0 -> deser_sample_names_f form Dev v = deser_sample_names_f form Release v.
+Proof. intro H. unfold deser_sample_names_f. rewrite (cv_decode_f_profile form v H). reflexivity. Qed.
 
 (* = Names.deser_sample_names (the C03 model of deserialize_sample_names) wherever the count varint is in range *)
 Lemma deser_names_c03 form pf v : cv5_overflows v = false ->
   o2_outcome (snd (deser_sample_names_f form pf v)) = deser_sample_names v.
 Proof.
-  intro H. unfold deser_sample_names_f, deser_sample_names. rewrite cv_decode_f_same by assumption.
+  intro H. unfold deser_sample_names_f, deser_sample_names. rewrite cv_decode_f_c03 by assumption.
   destruct (cv_decode v) as [[n r]| |] eqn:E; cbn [obnd fst snd o2_outcome]; try reflexivity.
   rewrite dec_names_strings. destruct (dec_strings (clamp n r) r) as [[ns r']| |]; reflexivity.
 Qed.
@@ -593,41 +604,48 @@ Proof.
   apply lbind_safe; [apply deser_f_repaired_safe; exact Hf|]. intros ns _. cbn. discriminate.
 Qed.
 
-Theorem open2_release_total_safe_proof : forall max_off zd file, snd (open2 Release max_off zd file) <> O2panic.
+(* the code today (CV5_ADD_FORM = 2, checked_add): never a panic, both profiles, all inputs *)
+Theorem open2_total_safe_proof : forall pf max_off zd file, snd (open2 pf max_off zd file) <> O2panic.
+Proof. intros. apply (open2_total_safe_if_repaired_proof CV5_ADD_FORM). discriminate. Qed.
+
+(* every form: release never panics *)
+Theorem open2_f_release_safe_proof : forall form max_off zd file, snd (open2_f form Release max_off zd file) <> O2panic.
 Proof.
-  intros mo zd file. rewrite open2_unfold. apply lbind_safe; [apply open_pre_safe|]. intros st _.
-  apply lbind_safe; [apply deser_names_release_safe|]. intros ns _. cbn. discriminate.
+  intros form mo zd file. rewrite open2_f_unfold. apply lbind_safe; [apply open_pre_safe|]. intros st _.
+  apply lbind_safe; [apply deser_f_release_safe|]. intros ns _. cbn. discriminate.
 Qed.
 
-Theorem open2_dev_panic_iff_proof : forall max_off zd file,
-  snd (open2 Dev max_off zd file) = O2panic <->
-  exists st, snd (open_pre max_off zd file) = O2ok st /\ cv5_overflows (ps_stream st) = true.
+(* the old form (`num += THR_4`), dev profile: exactly when it panicked *)
+Theorem open2_old_form_panic_iff_proof : forall form pf max_off zd file,
+  snd (open2_f form pf max_off zd file) = O2panic <->
+  form = 0 /\ pf = Dev /\ exists st, snd (open_pre max_off zd file) = O2ok st /\ cv5_overflows (ps_stream st) = true.
 Proof.
-  intros mo zd file. rewrite open2_unfold. split.
+  intros form pf mo zd file. rewrite open2_f_unfold. split.
   - intro H. apply lbind_panic_inv in H. destruct H as [H | (st & Hst & H)]; [exfalso; exact (open_pre_safe _ _ _ H)|].
-    exists st. split; [assumption|]. apply lbind_panic_inv in H. destruct H as [H | (ns & _ & H)].
-    + apply deser_names_dev_panic_iff. exact H.
-    + cbn in H. discriminate.
-  - intros (st & Hst & Hov). rewrite (lbind_ok _ _ st Hst). cbn [snd].
-    apply deser_names_dev_panic_iff in Hov. rewrite lbind_eq, Hov. reflexivity.
+    apply lbind_panic_inv in H. destruct H as [H | (ns & _ & H)]; [|cbn in H; discriminate].
+    apply deser_f_panic_iff in H. destruct H as (F & P & O). repeat split; try assumption. exists st. split; assumption.
+  - intros (F & P & st & Hst & Hov). rewrite (lbind_ok _ _ st Hst). cbn [snd].
+    assert (X : snd (deser_sample_names_f form pf (ps_stream st)) = O2panic) by (apply deser_f_panic_iff; repeat split; assumption).
+    rewrite lbind_eq, X. reflexivity.
 Qed.
 
-Theorem open2_total_safe_partial_proof : forall max_off zd file,
-  (forall st, snd (open_pre max_off zd file) = O2ok st -> cv5_overflows (ps_stream st) = false) ->
-  forall pf, snd (open2 pf max_off zd file) <> O2panic.
+(* with a repaired addition the profile is irrelevant *)
+Theorem open2_profile_independent_if_repaired_proof : forall form, form <> 0 ->
+  forall max_off zd file, open2_f form Dev max_off zd file = open2_f form Release max_off zd file.
 Proof.
-  intros mo zd file H pf. rewrite open2_unfold. apply lbind_safe; [apply open_pre_safe|]. intros st Hst.
-  apply lbind_safe; [apply deser_f_domain_safe, H, Hst|]. intros ns _. cbn. discriminate.
+  intros form Hf mo zd file. rewrite !open2_f_unfold. apply lbind_ext. intro st. rewrite (deser_f_profile form _ Hf). reflexivity.
 Qed.
 
-Theorem open2_profiles_agree_proof : forall max_off zd file,
+Theorem open2_profile_independent_proof : forall max_off zd file, open2 Dev max_off zd file = open2 Release max_off zd file.
+Proof. intros. apply (open2_profile_independent_if_repaired_proof CV5_ADD_FORM). discriminate. Qed.
+
+(* the repair is conservative: on files whose sample-name count is in range every form and profile agree *)
+Theorem open2_repair_conservative_proof : forall max_off zd file,
   (forall st, snd (open_pre max_off zd file) = O2ok st -> cv5_overflows (ps_stream st) = false) ->
-  open2 Dev max_off zd file = open2 Release max_off zd file.
+  forall form pf form' pf', open2_f form pf max_off zd file = open2_f form' pf' max_off zd file.
 Proof.
-  intros mo zd file H. rewrite !open2_unfold. destruct (snd (open_pre mo zd file)) as [st|e|] eqn:E.
-  - rewrite !(lbind_ok _ _ st E). rewrite (deser_names_same Release) by (apply H; reflexivity). reflexivity.
-  - rewrite !(lbind_err _ _ e E). reflexivity.
-  - rewrite !lbind_eq, E. reflexivity.
+  intros mo zd file H form pf form' pf'. rewrite !open2_f_unfold. apply lbind_ext_ok0. intros st Hst.
+  rewrite (deser_f_same form pf form' pf') by (apply H; exact Hst). reflexivity.
 Qed.
 
 Theorem open2_alloc_bounded_proof : forall pf max_off zd file,
@@ -642,7 +660,7 @@ Proof.
   - rewrite (lbind_ok _ _ st E). cbn [fst]. destruct (RL st eq_refl) as (l0 & frame & EQ & (fl & -> & FL) & Z & LF).
     rewrite EQ. exists fl. eexists. rewrite <- app_assoc. split; [reflexivity|]. split; [exact FL|]. right.
     exists frame, (ps_stream st). eexists. cbn [app]. split; [reflexivity|]. repeat split; try assumption.
-    apply lbind_log; [apply deser_names_alloc | intros; constructor].
+    apply lbind_log; [apply deser_f_alloc | intros; constructor].
   - rewrite (lbind_err _ _ e E). cbn [fst].
     destruct PL as [(fl & -> & FL) | (l0 & frame & v & -> & (fl & -> & FL) & Z & LF)].
     + exists fl, []. rewrite app_nil_r. repeat split; try assumption. left. reflexivity.
